@@ -610,5 +610,9 @@ def run(tier='quick'):
     W14 = chk.rule('W14', 'every multi-statement co-update relies on the transaction guard: it begins, commits (flag set only after COMMIT succeeded) and rolls back exactly when not committed, so a failed operation leaves neither half a co-update nor an open transaction whose later work is lost on close', floor=4)
     from . import c14 as _c14g
     _c14g._guard_shape(prog, eff, chk, W14)
+    W15 = chk.rule('W15', 'every compressed blob the library stores is one complete deflate stream (rule S6 of C03, for every '
+                          'payload size incl. exact multiples of the chunk size): a truncated stream is unreadable by Engine',
+                   floor=2)
+    extra.deflate_complete(prog, chk, W15)
     return chk.finish('statement sites of the 1.x crate operations with resolved binds (roles), field model of '
                       'the track path per schema range, parsed triggers of every 2.x DDL, value flow of add_track')
